@@ -13,7 +13,7 @@
 From GV.Model Require Import Ast Spec.
 From GV.Model Require Import Lex ValueParse QueryParse OpParse ClauseParse CnfParse FilterParse ClauseFParse CnfFParse LetParse CallParse FullParse.
 From GV.Proofs Require Import LexProps ValueParseProps ValueSpellProps ValueSpellExample.
-From GV.Proofs Require Import QueryParseProps QuerySpellProps QuerySpellExample ThisProps OpParseProps ClauseParseProps ClauseSpellProps ClauseSpellExample CnfParseProps OpSoundProps ClauseFuelProps CnfSpellProps CnfSpellExample FilterParseProps ClauseFProps CnfFProps LetParseProps CallParseProps FuelMonoProps CallExtendProps FullParseProps FullLinkProps FullCondsProps.
+From GV.Proofs Require Import QueryParseProps QuerySpellProps QuerySpellExample ThisProps OpParseProps ClauseParseProps ClauseSpellProps ClauseSpellExample CnfParseProps OpSoundProps ClauseFuelProps CnfSpellProps CnfSpellExample FilterParseProps ClauseFProps CnfFProps LetParseProps CallParseProps FuelMonoProps CallExtendProps FullParseProps FullLinkProps FullCondsProps FullClauseProps.
 
 Theorem C14_keyword_tables_are_the_documented_ones :
   set_eqb kw_in_keyword ["in"; "IN"] = true /\ set_eqb kw_keys ["keys"; "KEYS"] = true /\
@@ -430,3 +430,11 @@ Theorem C14_whole_grammar_reads_every_conditions_spelling : forall rv kw w0 w1 l
   POk (T "cnf" (map tor (map (map when_tree) (map denote_line (l0 :: ls))))) (after (final_alt ls (last_alt l0)) tail).
 Proof. exact whole_grammar_reads_every_conditions_spelling. Qed.
 Print Assumptions C14_whole_grammar_reads_every_conditions_spelling.
+
+(* `xclause`, the clause parser the whole-grammar parser uses inside blocks and filters, reads an access clause of the proved layer to
+   the tree of that clause when the text does not start with `when`, is not a call and is not a block clause *)
+Theorem C14_whole_grammar_clause_parser_reads_access_clauses : forall rv n s c r, clause rv n s = POk c r ->
+  alt_tags kw_when (skip_ws_comments s) = None -> call_like s = PErr -> not_a_block_clause n s ->
+  forall m, (n <= m)%nat -> xclause rv (S (S (S (S (S m))))) s = POk (clause_tree c) r.
+Proof. exact xclause_reads_access_clause. Qed.
+Print Assumptions C14_whole_grammar_clause_parser_reads_access_clauses.
